@@ -92,3 +92,22 @@ Example C04_refuted_spelling :
   mutate "SELECT a FROM t WHERE a = sqlc.arg( x ) AND b" [mkEdit 26 "sqlc.arg(x)" "$1"]
   = Ok "SELECT a FROM t WHERE a = $1 ) AND b".
 Proof. vm_compute. reflexivity. Qed.
+
+(** the same for every query of every accepted package (any number of query files) *)
+From Verif Require Import Model.CompileFiles Proofs.RunOrigin.
+Theorem C04_run_source_partial : forall e positional files qs name q,
+  compile_queries e positional files = Ok qs -> In (name, q) qs ->
+  exists src stmts raw,
+    In (name, src, stmts) files /\ In raw stmts /\
+    exists raw_sql edits expanded,
+      pluck src (int_of "StmtLocation" raw) (int_of "StmtLen" raw) = Ok raw_sql /\
+      mutate raw_sql edits = Ok expanded /\
+      strip_comments expanded = Ok (q_sql q, q_comments q).
+Proof.
+  intros e positional files qs name q H Hin.
+  destruct (run_query_origin e positional files qs name q H Hin) as [src [stmts [raw [A [B C]]]]].
+  exists src, stmts, raw. split; [exact A|]. split; [exact B|].
+  destruct (C04_compiled_source_partial e raw src positional q C) as [raw_sql [edits [expanded [P [M [S _]]]]]].
+  exists raw_sql, edits, expanded. repeat split; assumption.
+Qed.
+Print Assumptions C04_run_source_partial.
